@@ -29,7 +29,8 @@ ASSUMPTIONS = ['a quiescent point is a strategy before()/after()/terminate() hoo
                'margin, closed trades, open-trade tables, liquidation counter and the order\'s own fields']
 MIN_OBS = {'calls_on_final_orders': 1000, 'injected_calls': 200, 'simulator_duplicate_calls': 20,
            'cancel_all_with_queued_market': 50, 'active_set_comparisons': 2000, 'trade_membership_checks': 200,
-           'terminal_transitions': 2000, 'pruned_list_checks': 2000}
+           'terminal_transitions': 2000, 'pruned_list_checks': 2000, 'sessions_with_liquidation': 10,
+           'final_status_rechecks': 10000}
 
 M = {'on': False}
 
@@ -187,6 +188,13 @@ def quiescent_checks(full=False):
         n = store.orders.count_active_orders(r.exchange, r.symbol)
         if n != len(model):
             _viol('count_active_orders_differs', f'{key}: count_active_orders {n}, model {len(model)}')
+    # an order that reached a final status keeps exactly that status (also when nobody calls execute()/cancel() on it again)
+    for rec in M['rec'].values():
+        if rec['final'] is not None:
+            cnt['final_status_rechecks'] = cnt.get('final_status_rechecks', 0) + 1
+            if rec['ref'].status != rec['final']:
+                _viol('status_changed_after_final', f'order status {rec["final"]} -> {rec["ref"].status} (found at a quiescent point)',
+                      rec['ref'])
     if full:
         ct = store.completed_trades
         member = {}
@@ -229,9 +237,29 @@ def hook_monitor(strategy, hook, ev):
         quiescent_checks()
 
 
+def _liq_spec(job, rng):
+    """a steered isolated-margin session of C09 (the position is force-closed by the simulator's own liquidation order)"""
+    from . import c09
+    lj = {'seed': job['seed'], 'i': job['i'], 'lev': rng.choice([5, 10, 25]), 'side': rng.choice(['long', 'short']),
+          'pattern': rng.choice(['touch', 'overshoot', 'gap_jump']), 'stop': False, 'fast': rng.random() < 0.4,
+          'mode': 'isolated', 'averaged': rng.random() < 0.3, 'tf': rng.choice(['1m', '5m']), 'fee': rng.choice([0, 0.001]),
+          'close_mode': rng.choice(['half', 'recover_profit']), 'resting_tps': rng.choice([0, 3]), 'partial_tp': False}
+    arr, script, info = c09.build(lj)
+    script['observe'] = 'light'
+    cfg = {'starting_balance': 10000, 'fee': lj['fee'], 'type': 'futures', 'futures_leverage': lj['lev'],
+           'futures_leverage_mode': 'isolated'}
+    spec = {'config': cfg, 'routes': [{'symbol': 'BTC-USDT', 'timeframe': lj['tf'], 'script': script}],
+            'data_routes': [], 'candles': {}, 'warmup': 0, 'fast': lj['fast']}
+    return spec, {'BTC-USDT': arr}
+
+
 def _session(job):
     rng = random.Random(job['seed'])
-    spec = specgen.random_session(rng, minutes=rng.choice([240, 400, 600]))
+    candles = None
+    if job.get('liq'):
+        spec, candles = _liq_spec(job, rng)
+    else:
+        spec = specgen.random_session(rng, minutes=rng.choice([240, 400, 600]))
     for r in spec['routes']:
         r['script']['observe'] = 'light'
     begin()
@@ -239,7 +267,11 @@ def _session(job):
     M['rng'] = random.Random(job['seed'] + 1)
     if hook_monitor not in scripted.HOOK_MONITORS:
         scripted.HOOK_MONITORS.append(hook_monitor)
-    out = session.run_session(spec, keep_events=False, snapshots=False)
+    def _liq_seen(ev):
+        if ev['k'] == 'liq_exit' and ev.get('liq_total'):
+            M['cnt']['sessions_with_liquidation'] = 1
+
+    out = session.run_session(spec, subs=[_liq_seen], keep_events=False, snapshots=False, candles=candles)
     M['on'] = False
     cnt = M['cnt']
     cnt['sessions'] = 1
@@ -356,5 +388,5 @@ def make_jobs(tier, seed):
     subs = [{'seed': rng.randrange(1 << 30), 'i': i, 'length': rng.choice([8, 20, 40, 60])} for i in range(n)]
     jobs = [{'kind': 'batch', 'batch': subs[i:i + 25]} for i in range(0, n, 25)]
     for i in range(160 if tier == 'quick' else 10000):
-        jobs.append({'kind': 'session', 'seed': rng.randrange(1 << 30), 'i': i})
+        jobs.append({'kind': 'session', 'seed': rng.randrange(1 << 30), 'i': i, 'liq': i % 5 == 4})
     return jobs
